@@ -42,7 +42,7 @@ def main():
         for c in checks:
             for tier in ('quick', 'thorough'):
                 t = time.time()
-                rc, o = sh('./check %s --tier %s' % (c, tier), cwd='/verif', env=dict(os.environ, PY4HW_ROOT=wt), timeout=3600)
+                rc, o = sh('./check %s --tier %s' % (c, tier), cwd='/verif', env=dict(os.environ, PY4HW_ROOT=wt, VERIF_EVIDENCE_DIR='/tmp/seedcheck-evidence'), timeout=3600)
                 lines = [l for l in o.splitlines() if l.startswith(('VIOLATION', 'INCONCLUSIVE', c + ' '))]
                 results['%s/%s' % (c, tier)] = dict(exit=rc, seconds=round(time.time() - t), first=lines[:2], last=lines[-1:] )
                 meta['ran'].append('PY4HW_ROOT=%s ./check %s --tier %s -> exit %d' % (wt, c, tier, rc))
